@@ -338,8 +338,12 @@ class STAR:
         out = {
             'class': votelib.persist.scoped_class_name(self),
             'runoff_added_count': self.runoff_added_count,
-            'runoff_added_fraction': self.runoff_added_fraction,
-            'runoff_evaluator': self.runoff_evaluator.to_dict(),
+            'runoff_added_fraction': votelib.persist.serialize_value(
+                self.runoff_added_fraction
+            ),
+            'runoff_evaluator': votelib.persist.serialize_value(
+                self.runoff_evaluator
+            ),
         }
         for key, val in self._agg.to_dict().items():
             if key not in ('function', 'class'):
